@@ -80,3 +80,18 @@ Example C09_nonvacuous :
               union_blob_size := 40; value_blob_size := 12; vfunc_blob_size := 20 |} in
   acc_g_object_info_get_method e 1 = 400 + 60 + 8 + 2 * 16 + 12 + 16 + 20.
 Proof. vm_compute. reflexivity. Qed.
+
+(* the element type of an array and the n-th type of a list or hash table: the offset g_type_info_get_param_type computes
+   (expression recognised in gitypeinfo.c on every run) is the position of ArrayTypeBlob.type and of ParamTypeBlob.type[n]
+   in the layout regenerated from gitypelib-internal.h, for every blob offset and every n; both blobs keep their types at the
+   same distance, which is why one expression serves both *)
+From GIV.Gen Require Import BlobLayout.
+Theorem C09_param_type_offset : forall base n : Z,
+  let sz := Z.of_N (snd ParamTypeBlob__type_at) in
+  acc_g_type_info_get_param_type base (Z.of_N ParamTypeBlob_size) sz n
+    = (base + Z.of_N (fst ParamTypeBlob__type_at) + n * sz)%Z /\
+  acc_g_type_info_get_param_type base (Z.of_N ParamTypeBlob_size) sz 0
+    = (base + Z.of_N (fst ArrayTypeBlob__type_at))%Z /\
+  snd ArrayTypeBlob__type_at = snd ParamTypeBlob__type_at.
+Proof. exact param_type_offset. Qed.
+Print Assumptions C09_param_type_offset.
